@@ -200,8 +200,13 @@ Inductive top :=
 | TAllowF (i : nat) (now_ms : Z) (n : Z) (rescue : bool) (r : reply)
       (* FAULT: if the call sends its command, a faulty store / connection answers [r] instead of
          executing the script *)
-| TAllowC (i : nat) (now_ms : Z) (n : Z) (rescue : bool).
+| TAllowC (i : nat) (now_ms : Z) (n : Z) (rescue : bool)
       (* AllowNCtx with a context that is already cancelled: the command is never sent *)
+| TAllowLate (i : nat) (now_ms : Z) (n : Z) (rescue : bool) (brk : bool).
+      (* CONCURRENT CALLS ON ONE INSTANCE: a call that read redisAlive = 1 before a concurrent call
+         of the same instance switched it off, and sends its command now.  (reserveN = load the
+         flag; EVAL; on error startMonitor + rescue limiter: the first call to finish is a [TAllow],
+         every other call that had already passed the flag is a [TAllowLate].) *)
 
 Inductive tobs :=
 | TR (granted : bool) (alive_after : bool) (by_script : bool)
@@ -231,6 +236,20 @@ Definition reserve (c : tcfg) (t : tinst) (now_ms n : Z) (rescue : bool) (st : r
     let '(r, st') := eval Lua_token.script [ktokens c; kts c]
                        [BInt (rate c); BInt (burst c); BInt (unix_s now_ms); BInt n] st in
     let '(t', ob) := token_reply t r rescue in (st', t', ob).
+
+(* reserveN from the point where the command is sent (the flag was read as 1 earlier) *)
+Definition reserve_late (c : tcfg) (t : tinst) (now_ms n : Z) (rescue : bool) (st : rstate) (down : bool)
+  : rstate * tinst * tobs :=
+  if down then
+    let t' := start_monitor t in (st, t', TR rescue (alive t') false)     (* monitor already started: no-op *)
+  else
+    let '(r, st') := eval Lua_token.script [ktokens c; kts c]
+                       [BInt (rate c); BInt (burst c); BInt (unix_s now_ms); BInt n] st in
+    match r with
+    | RNil => (st', t, TR false (alive t) true)
+    | RInt code => (st', t, TR (code =? 1) (alive t) true)
+    | RErr _ | RBulk _ | RStatus _ => let t' := start_monitor t in (st', t', TR rescue (alive t') false)
+    end.
 
 Fixpoint set_nth {A} (i : nat) (x : A) (l : list A) : list A :=
   match l, i with
@@ -268,6 +287,12 @@ Definition tstep (c : tcfg) (s : tstate) (o : top) : tstate * tobs :=
     match nth_error (tinsts s) i with
     | Some t => (s, if alive t then TR false true false    (* errorx.In(err, ..., context.Canceled): refused, no fallback *)
                     else TR rescue false false)
+    | None => (s, TU)
+    end
+  | TAllowLate i now n rescue brk =>
+    match nth_error (tinsts s) i with
+    | Some t => let '(st', t', r) := reserve_late c t now n rescue (tstore s) (tdown s || negb brk)%bool in
+                (mkTS st' (tdown s) (set_nth i t' (tinsts s)), r)
     | None => (s, TU)
     end
   end.
@@ -337,6 +362,17 @@ Definition sp_tstep (c : tcfg) (a : tspec) (o : top) : tspec * tobs :=
                     else TR rescue false false)
     | None => (a, TU)
     end
+  | TAllowLate i now n rescue brk =>
+    match nth_error (sp_insts a) i with
+    | Some t =>
+      if (sp_tdown a || negb brk)%bool then
+        let t' := start_monitor t in
+        (mkSp (sp_bucket a) (sp_clock a) (sp_tdown a) (set_nth i t' (sp_insts a)), TR rescue (alive t') false)
+      else
+        let '(b', g) := bucket_take (rate c) (burst c) (sp_bucket a) (unix_s now) n in
+        (mkSp b' (sp_clock a) (sp_tdown a) (set_nth i t (sp_insts a)), TR g (alive t) true)
+    | None => (a, TU)
+    end
   end.
 
 Fixpoint sp_trun (c : tcfg) (a : tspec) (ops : list top) : list tobs :=
@@ -350,7 +386,8 @@ Fixpoint sp_trun (c : tcfg) (a : tspec) (ops : list top) : list tobs :=
 Fixpoint twf (clock : Z) (ops : list top) : bool :=
   match ops with
   | [] => true
-  | TAllow _ now n _ _ :: ops' | TAllowF _ now n _ _ :: ops' | TAllowC _ now n _ :: ops' =>
+  | TAllow _ now n _ _ :: ops' | TAllowF _ now n _ _ :: ops' | TAllowC _ now n _ :: ops'
+  | TAllowLate _ now n _ _ :: ops' =>
     (now =? clock) && (0 <=? n) && twf clock ops'
   | TAdvance ms :: ops' => (0 <=? ms) && twf (clock + ms) ops'
   | _ :: ops' => twf clock ops'
@@ -359,7 +396,8 @@ Fixpoint twf (clock : Z) (ops : list top) : bool :=
 (* tokens granted by the shared bucket (script) in a history *)
 Fixpoint granted_by_script (ops : list top) (rs : list tobs) : Z :=
   match ops, rs with
-  | TAllow _ _ n _ _ :: ops', TR true _ true :: rs' => n + granted_by_script ops' rs'
+  | TAllow _ _ n _ _ :: ops', TR true _ true :: rs'
+  | TAllowLate _ _ n _ _ :: ops', TR true _ true :: rs' => n + granted_by_script ops' rs'
   | _ :: ops', _ :: rs' => granted_by_script ops' rs'
   | _, _ => 0
   end.
